@@ -50,9 +50,8 @@ class FakeGlob:
             # no device node: the attempt ends here (os.open is never reached)
             self.gw.open_attempts.append((self.gw.sim.loop.time(), False))
             return []
-        # the node may come back under another number
-        self.n = getattr(self, "n", 0) + 1
-        return [pattern.replace("*", str(self.n % 4))]
+        # the node may come back under another number (gw.node changes when the device is re-enumerated)
+        return [pattern.replace("*", str(self.gw.node))]
 
 
 class FakeOS:
@@ -65,8 +64,9 @@ class FakeOS:
         self._next_fd = 100
 
     def open(self, path, flags):
-        self.gw.open_attempts.append((self.gw.sim.loop.time(), self.gw.present))
-        if not self.gw.present:
+        ok = self.gw.present and (not self.gw.glob_mode or path.endswith("hidraw%d" % self.gw.node))
+        self.gw.open_attempts.append((self.gw.sim.loop.time(), ok))
+        if not ok:
             raise OSError(errno.ENOENT, "no such device")
         self._next_fd += 1
         self.gw.fd = self._next_fd
@@ -104,6 +104,8 @@ class Gateway:
     def __init__(self, sim):
         self.sim = sim
         self.present = True
+        self.node = 0            # number of the device node (relevant when the driver is given a glob pattern)
+        self.glob_mode = False
         self.eof = False
         self.write_fails = False
         self.fd = None
@@ -212,6 +214,7 @@ class HidSim:
         self.sendtwice_frames = {}
         self.gw = TridonicGateway(self) if kind == "tridonic" else HassebGateway(self)
         self.gw.present = present
+        self.gw.glob_mode = glob
         self._saved = (hidmod.os, hidmod.random, hidmod.glob)
         hidmod.os = FakeOS(self.gw)
         hidmod.random = FakeRandom(initial_seq)
